@@ -20,6 +20,16 @@ KF = [('core', 'h_csel_kf_C02F', 'C02F'), ('core', 'h_branch_kf_C02G', 'C02G'), 
       ('core', 'h_bitfield_kf_C02E', 'C02E'), ('core', 'h_mov_imm_kf_C02H', 'C02H'), ('simd', 'h_simd_add_kf_C02A', 'C02A'), ('simd', 'h_minmax_kf_C02I', 'C02I'), ('simd', 'h_simd_tbl_kf_C02J', 'C02J'), ('simd', 'h_simd_elem_kf_C02K', 'C02K')]
 for u, f, k in KF:
     HARNESSES.append(Harness(u, f, unwind=17, bounds='region of known finding ' + k, mem_gb=4, timeout=600, known=k))
+# ---- generated family (gen_forms.py, output committed): one unit per h_forms_NN.cpp, rotated into quick by unit
+import os as _os
+_fx = {}
+exec(open(_os.path.join(_os.path.dirname(_os.path.abspath(__file__)), 'forms_index.py')).read(), _fx)
+for _k, _fn in enumerate(_fx['FILES']):
+    UNITS.append(Unit('f%02d' % _k, harness=[_fn], repo_units=A64_UNITS))
+for _fn, _hn, _recs in _fx['HARNESSES']:
+    _k = _fx['FILES'].index(_fn)
+    HARNESSES.append(Harness('f%02d' % _k, _hn, unwind=17, bounds='DB records: ' + '; '.join(_recs) + ' -- register ids 0..63, element index 0..15, immediates 2^64, offsets 2^32',
+                             mem_gb=4, timeout=900, rotate=(_k, len(_fx['FILES'])), validate_runs=100))
 EXPLANATION = 'bounded symbolic execution (CBMC) of the real a64::Assembler::_emit'
 OUTSIDE = []
 ASSUMPTIONS = []
